@@ -65,6 +65,16 @@ def dec_val(v):
     return v
 
 
+class _Excluded:
+    """observation marker: a counted exclusion was hit inside the observed call; concordance stops comparing here"""
+
+    def __repr__(self):
+        return "<excluded>"
+
+
+EXCLUDED = _Excluded()
+
+
 class PathEnd(BaseException):
     """a check failed for every value of the path: nothing after it can be analysed, the path ends here"""
 
@@ -83,6 +93,7 @@ class Ctx:
         self.known_hits = []      # sym: (finding id, label, witness)
         self.checks_reached = 0
         self.checks_discharged = 0
+        self.ended_early = False
         self.known = known or []
         self.prop = prop
         self.notes = {}
@@ -260,7 +271,7 @@ class Runner:
             try:
                 fam.fn(ctx, **fam.params)
             except PathEnd:
-                pass
+                ctx.ended_early = True
             m = E.get_model()
             wit = ctx._witness(m)
             sobs = [(l, concretize(v, m)) for l, v in ctx.obs]
@@ -279,9 +290,16 @@ class Runner:
                     rctx = Ctx("replay", real_pkg, witness=wit, prop=self.prop)
                     fam.fn(rctx, **fam.params)
                     robs = rctx.obs
+                    cut = [i for i, (l, v) in enumerate(sobs) if v is EXCLUDED]
+                    if cut:
+                        sobs, robs = sobs[:cut[0]], robs[:cut[0]]     # outcome outside the claim from here on
+                    elif ctx.ended_early:
+                        robs = robs[:len(sobs)]     # the symbolic path stopped at a check that fails for every value
                     ok = len(robs) == len(sobs) and all(a[0] == b[0] and obs_equal(a[1], b[1]) for a, b in zip(sobs, robs))
                     bad_checks = [l for l in rctx.failed if not any(l == c[0] for c in ctx.candidates) and
                                   not any(l == k[1] for k in ctx.known_hits)]
+                    if cut or ctx.ended_early:
+                        bad_checks = []
                     if not ok or bad_checks:
                         res["conc_bad"].append(dict(witness=enc_val(wit), sym=enc_val(sobs), real=enc_val(robs),
                                                     failed_only_on_real=bad_checks))
